@@ -1,9 +1,8 @@
 #!/bin/bash
 # Every seeded change against the quick check of ITS OWN property (the full matrix, every change
 # against every check, takes ~8 h on a scratch copy; this takes ~1 h on two scratch copies).
-#   usage: ./run_own_matrix.sh <scratch dir> <id> [id ...]
+#   usage: ./run_own_matrix.sh <scratch dir> <property> [property ...]
 SCR=$1; shift
-for id in "$@"; do
-    p=${id%%-*}
-    SCR=$SCR WORKERS=8 CHECKS=$p /verif/run_seeded_scratch.sh $id 2>&1 | grep "caught by"
+for p in "$@"; do
+    SCR=$SCR WORKERS=8 CHECKS=$p /verif/run_seeded_scratch.sh $(ls /verif/seeded | grep "^$p-") 2>&1 | grep "caught by\|BUILD\|apply"
 done
